@@ -16,10 +16,12 @@ import ScyllaVerif.Model.TabletsRefresh
     `T`                           dump of every table of the `TabletsInfo`, sorted, then `u<unresolved>s<stale>`
     `Q<ks>.<table>:<token>`       `tablets_for_table(..).replicas_for_token(..)`
     `D<ks>.<table>:<token>@<dc>`  `tablets_for_table(..).dc_replicas_for_token(..)`
-* `cs <op>;<op>;…` — one history on a real `ClusterState` (tablet keyspace `k0` with tables `t0`, `t1`):
+* `cs <op>;<op>;…` / `csa <op>;…` — one history on a real `ClusterState` (tablet keyspace `k0` with tables `t0`, `t1`);
+  `cs`: the host filter rejects every peer (pool-less nodes), `csa`: it accepts every peer and the nodes are enabled
+  (the accepted-node arms of `calculate_new_topology`, `inherit_with_ip_changed`):
     `P<peer>,<peer>…[!<schema>]`  first: `ClusterState::new`; later: a metadata refresh (`new_updated`); a peer is
                                   `<id>[@<dc>[/<rack>]]`, its address is its position in the list; `<schema>` = `x` (no keyspace),
-                                  `-` (`k0` not tablet-based), `<tables>/<views>` (default `t0+t1/`)
+                                  `-` (`k0` not tablet-based), `e` (the fetch of `k0` failed), `<tables>/<views>` (default `t0+t1/`)
                                   → `P<ids whose Node object was kept>|<tables of the tablet map with their sizes>`
     `N<peer>,<peer>…`             `new_with_updated_topology` (peers only, keyspaces of the current state) → `N…` likewise
     `L<t>:<first>:<last>:<reps>`  `ClusterState::update_tablets` with one tablet for table `t<t>`
@@ -342,19 +344,21 @@ def insertNat (x : Nat) : List Nat → List Nat
   | [] => [x]
   | y :: ys => if x ≤ y then x :: y :: ys else y :: insertNat x ys
 
-/-- the schema part of a `P` op: absent = `k0` with tables `t0`, `t1`; `x` = no keyspace; `-` = `k0` exists but is not
-tablet-based; `<tables>/<views>` = tablet-based `k0` with these tables and materialized views -/
-def parseCsSchema (s : Option String) : Option (List KsMeta) :=
+/-- the schema part of a `P` op, as the fetch result by keyspace name: absent = `k0` with tables `t0`, `t1`; `x` = no
+keyspace; `-` = `k0` exists but is not tablet-based; `e` = the fetch of `k0` FAILED; `<tables>/<views>` = tablet-based `k0`
+with these tables and materialized views -/
+def parseCsSchema (s : Option String) : Option (List (String × Option KsMeta)) :=
   match s with
-  | none => some [⟨"k0", true, ["t0", "t1"], []⟩]
+  | none => some [("k0", some ⟨"k0", true, ["t0", "t1"], []⟩)]
   | some "x" => some []
-  | some "-" => some [⟨"k0", false, [], []⟩]
+  | some "-" => some [("k0", some ⟨"k0", false, [], []⟩)]
+  | some "e" => some [("k0", none)]
   | some cfg =>
     match cfg.splitOn "/" with
     | [tables, views] =>
       let ts := parseNames tables
       let vs := parseNames views
-      if (ts ++ vs).all (fun n => n == "t0" || n == "t1") then some [⟨"k0", true, ts, vs⟩] else none
+      if (ts ++ vs).all (fun n => n == "t0" || n == "t1") then some [("k0", some ⟨"k0", true, ts, vs⟩)] else none
     | _ => none
 
 structure CsSt where
@@ -382,18 +386,23 @@ def showTableSizes (inf : Info) : String :=
   let sorted := inf.tables.foldl (fun acc e => insertSorted e acc) []
   if sorted.isEmpty then "-" else "+".intercalate (sorted.map fun e => s!"{e.1.1}.{e.1.2}:{e.2.tablets.length}")
 
-def csRefresh (cs : CState) (peers : List Peer) (kss : List KsMeta) (topologyOnly : Bool) : CState × String :=
-  -- the hook's nodes are pool-less: they read as not enabled, and the host filter rejects every peer
-  let old : Known := cs.known.map fun e => (e.1, { e.2 with enabled := false })
+/-- one refresh; `fetched = none`: `new_with_updated_topology`.  `accepting`: the host filter accepts every peer and
+the nodes read as enabled (the `cs` kind: everything rejected, nodes read as not enabled). -/
+def csRefresh (accepting : Bool) (cs : CState) (peers : List Peer) (fetched : Option (List (String × Option KsMeta)))
+    (oldKss : List KsMeta) : CState × List KsMeta × String :=
+  let peers := peers.map fun p => { p with accepted := accepting }
+  let old : Known := cs.known.map fun e => (e.1, { e.2 with enabled := accepting })
   let cs0 := { cs with known := old }
-  let cs' := if topologyOnly then refreshTopology cs0 peers kss else refreshKs cs0 peers kss
+  let (cs', kss) := match fetched with
+    | none => (refreshTopology cs0 peers oldKss, oldKss)
+    | some f => (refreshFetched cs0 peers f oldKss, resolveKeyspaces f oldKss)
   let kept := cs'.known.foldl (fun acc e =>
     match alGet e.1 old with
     | some o => if o.node == e.2.node then insertNat e.1 acc else acc
     | none => acc) []
-  (cs', natList kept ++ "|" ++ showTableSizes cs'.info)
+  (cs', kss, natList kept ++ "|" ++ showTableSizes cs'.info)
 
-def csOp (st : Option CsSt) (op : String) : Option (CsSt × String) :=
+def csOp (accepting : Bool) (st : Option CsSt) (op : String) : Option (CsSt × String) :=
   match splitOp op with
   | none => none
   | some (c, arg) =>
@@ -403,8 +412,9 @@ def csOp (st : Option CsSt) (op : String) : Option (CsSt × String) :=
         | [a, b] => (a, some (some b))
         | _ => (arg, none)
       match parsePeers ps, schema.bind parseCsSchema with
-      | some peers, some kss =>
-        let (cs', out) := csRefresh ((st.map (·.cs)).getD CState.init) peers kss false
+      | some peers, some fetched =>
+        let (cs', kss, out) := csRefresh accepting ((st.map (·.cs)).getD CState.init) peers (some fetched)
+          ((st.map (·.kss)).getD [])
         some (⟨cs', kss⟩, "P" ++ out)
       | _, _ => none
     else match st with
@@ -415,7 +425,7 @@ def csOp (st : Option CsSt) (op : String) : Option (CsSt × String) :=
         -- `new_with_updated_topology`: new peers, the keyspaces of the current state
         match parsePeers arg with
         | some peers =>
-          let (cs', out) := csRefresh cs peers st.kss true
+          let (cs', _, out) := csRefresh accepting cs peers none st.kss
           some ({ st with cs := cs' }, "N" ++ out)
         | none => none
       else if c == 'L' || c == 'B' then
@@ -453,11 +463,11 @@ def csOp (st : Option CsSt) (op : String) : Option (CsSt × String) :=
         | _ => none
       else none
 
-def runCs (ops : List String) : String :=
+def runCs (accepting : Bool) (ops : List String) : String :=
   let rec go (st : Option CsSt) (acc : List String) : List String → Option (List String)
     | [] => some acc.reverse
     | op :: rest =>
-      match csOp st op with
+      match csOp accepting st op with
       | none => none
       | some (st', out) => go (some st') (out :: acc) rest
   match go none [] ops with
@@ -467,7 +477,8 @@ def runCs (ops : List String) : String :=
 def run (case _impl : String) : String :=
   match words case with
   | ["tab", ops] => runTab ((ops.splitOn ";").filter (· ≠ ""))
-  | ["cs", ops] => runCs ((ops.splitOn ";").filter (· ≠ ""))
+  | ["cs", ops] => runCs false ((ops.splitOn ";").filter (· ≠ ""))
+  | ["csa", ops] => runCs true ((ops.splitOn ";").filter (· ≠ ""))
   | ["payload", arg] => runPayload arg
   | ["exh", alpha, depth, pre] =>
     match depth.toNat?, parseNatList pre with
